@@ -278,8 +278,10 @@ func (m *resourceManager) handleReadResource(ctx context.Context, req *JSONRPCRe
 		return newJSONRPCErrorResponse(req.ID, ErrCodeInvalidParams, errors.ErrMissingParams.Error(), nil), nil
 	}
 
-	// Get resource
+	// Get resource with proper locking.
+	m.mu.RLock()
 	registeredResource, exists := m.resources[uri]
+	m.mu.RUnlock()
 	if !exists {
 		return newJSONRPCErrorResponse(
 			req.ID,
